@@ -109,7 +109,7 @@ def classify_forward(fn, t):
 
 
 class PathSummary:
-    __slots__ = ('conds', 'fwd', 'calls', 'end', 'ret', 'path', 'throws', 'throw_at_fwd', 'throw_at_call', 'unwinds', 'writes')
+    __slots__ = ('conds', 'fwd', 'calls', 'end', 'ret', 'path', 'throws', 'throw_at_fwd', 'throw_at_call', 'unwinds', 'writes', 'ret_term', 'fwd_ids', 'cond_terms')
 
     def __init__(self):
         self.conds = []     # (canonical cond, taken)
@@ -246,6 +246,7 @@ def summarize(fn, exceptional=False, extra_forward=None, roles=None, inline=None
                 if len(it) > 4 and it[4] in ('ForStmt', 'WhileStmt', 'DoStmt', 'CXXForRangeStmt'):
                     continue    # loop trip conditions do not select the forwarding call
                 conds.append((env.c(cond), taken))
+                meta.setdefault('cond_terms', []).append((env.subst(cond), taken))
             elif it[0] == 'throw':
                 if depth != 0:
                     return
@@ -291,6 +292,9 @@ def summarize(fn, exceptional=False, extra_forward=None, roles=None, inline=None
         s.calls = calls
         s.end = end
         s.ret = sym.canon(ret_term, roles) if ret_term is not None else None
+        s.ret_term = ret_term
+        s.cond_terms = meta.get('cond_terms', [])
+        s.fwd_ids = fwd_ids
         s.path = p
         s.throws = throws
         s.throw_at_fwd = meta.get('throw_at_fwd')
